@@ -8,6 +8,7 @@ Model + oracle: lean/CnvVerif/Model/Coverage.lean, Driver/Coverage.lean (`handle
 from __future__ import annotations
 
 import functools
+import json
 import math
 import os
 import shutil
@@ -362,6 +363,203 @@ def _chunk_case(rng, n=None, size=None, tag="chunks"):
     return {"op": "chunks", "tag": tag, "in": {"lines": lines, "size": size}}
 
 
+# ------------------------------------------------------------------------------------------------
+# worker schedules (op covsched, round 4): the REAL pool is run with per-task delays so that the workers finish in
+# an adversarial order; every worker logs when it takes and when it finishes a task; the observed event list is
+# replayed through the small-step pool model (lean/CnvVerif/Model/CoverageSched.lean)
+
+_PLAN = None  # set in the harness worker before cnvkit's pool forks its workers (fork start method)
+
+
+def _sched_log(kind, key):
+    import time
+    fd = os.open(_PLAN["log"], os.O_WRONLY | os.O_APPEND | os.O_CREAT, 0o600)
+    try:
+        os.write(fd, (json.dumps([kind, key, os.getpid(), time.monotonic_ns()]) + "\n").encode())
+    finally:
+        os.close(fd)
+
+
+def _delayed_bedcov(args):
+    """stands in for cnvlib.coverage._bedcov inside the worker processes: same result, after a planned delay"""
+    import time
+    with open(args[0]) as f:
+        key = f.readline().rstrip("\n")  # a chunk is known by its first line (the lines of these cases are distinct)
+    _sched_log("s", key)
+    time.sleep(_PLAN["delay"].get(key, 0.0))
+    out = _PLAN["bedcov"](args)
+    _sched_log("f", key)
+    return out
+
+
+def _delayed_rdc(args):
+    """stands in for cnvlib.coverage._rdc: one task per chromosome"""
+    import time
+    key = str(args[1].chromosome.iat[0])
+    _sched_log("s", key)
+    time.sleep(_PLAN["delay"].get(key, 0.0))
+    out = _PLAN["rdc"](args)
+    _sched_log("f", key)
+    return out
+
+
+def _observed_events(log_path, index_of_key, ntasks):
+    """the pool's event list in the model's alphabet: [0, w, k] worker w took the k-th waiting task, [1, w] worker w
+    finished; workers are numbered in the order in which they first show up"""
+    if not os.path.exists(log_path):
+        return [], 0
+    recs = []
+    with open(log_path) as f:
+        for ln in f:
+            kind, key, pid, t = json.loads(ln)
+            recs.append((int(t), kind, key, int(pid)))
+    recs.sort()
+    pending, workers, evs = list(range(ntasks)), {}, []
+    for _t, kind, key, pid in recs:
+        w = workers.setdefault(pid, len(workers))
+        if kind == "s":
+            k = pending.index(index_of_key[key])
+            pending.pop(k)
+            evs.append([0, w, k])
+        else:
+            evs.append([1, w])
+    return evs, len(workers)
+
+
+def _sched_case(rng, k):
+    names = rng.choice(CONTIG_SETS)[: rng.choice([2, 3, 3])]
+    contigs = [[n, rng.randint(400, 1500)] for n in names]
+    recs = _bins(rng, contigs, rng.choice([6, 9, 14]))
+    if rng.random() < 0.5:
+        rng.shuffle(recs)
+    seen, uniq = set(), []
+    for r in recs:  # distinct lines: a chunk file is recognised by its first line
+        if tuple(r) not in seen:
+            seen.add(tuple(r))
+            uniq.append(r)
+    bed = [[c, s, e, ["b%d" % j]] for j, (c, s, e) in enumerate(uniq)]
+    if rng.random() < 0.3:
+        bed.insert(rng.randint(0, len(bed)), "#chrom\tstart\tend\tname")
+    edges = [(c, x) for (c, s, e) in uniq for x in (s, e)]
+    reads = _reads(rng, contigs, rng.choice([20, 60, 120]), rng.random() < 0.3, edges)
+    n = len(uniq)
+    runs = []
+    for algo in ("pileup", "count", "pileup"):
+        procs = rng.choice([2, 2, 3, 4])
+        size = rng.choice([1, 2, 3, max(1, n // 3), max(1, n // 2)]) if algo == "pileup" else 5000
+        # delay plan: rank of each task in the wanted completion order (reverse, or a random permutation)
+        runs.append([algo, procs, size, rng.choice(["reverse", "reverse", "random", "none"]), rng.randint(0, 10 ** 6)])
+    runs.append(["pileup", 1, 5000, "none", 0])
+    runs.append(["count", 1, 5000, "none", 0])
+    return {"op": "covsched", "tag": "sched", "in": {"contigs": contigs, "reads": reads, "bed": bed,
+                                                     "q": rng.choice([0, 0, 10, 30]), "runs": runs}}
+
+
+def _run_sched(case):
+    """do_coverage with the worker functions delayed and logged; returns per run the table and the observed events"""
+    import random
+    import pysam  # noqa: F401
+    from cnvlib import coverage, parallel
+    global _PLAN
+    i = case["in"]
+    d = tempfile.mkdtemp(dir="/var/tmp", prefix="c09s-")
+    old_tmp = tempfile.tempdir
+    tempfile.tempdir = d
+    saved = (coverage._bedcov, coverage._rdc, coverage.to_chunks)
+    try:
+        bam = os.path.join(d, "s.bam")
+        _write_bam(bam, i["contigs"], i["reads"])
+        pysam.index(bam)
+        bed = os.path.join(d, "r.bed")
+        with open(bed, "w") as f:
+            f.write(_bed_text(i["bed"]))
+        records = [_bed_text([l]).rstrip("\n") for l in i["bed"] if not isinstance(l, str)]
+        res = []
+        for k, (algo, procs, size, plan, pseed) in enumerate(i["runs"]):
+            prng = random.Random(pseed)
+            log = os.path.join(d, "log%d" % k)
+            if algo == "pileup":
+                keys = [records[j] for j in range(0, len(records), size)]  # first line of each chunk
+            else:
+                keys = sorted({l[0] for l in i["bed"] if not isinstance(l, str)})  # order fixed below, from the table
+            rank = list(range(len(keys)))
+            if plan == "reverse":
+                rank.reverse()
+            elif plan == "random":
+                prng.shuffle(rank)
+            delay = {} if plan == "none" else dict((key, 0.02 + 0.03 * rank[j]) for j, key in enumerate(keys))
+            _PLAN = {"log": log, "delay": delay, "bedcov": saved[0], "rdc": saved[1]}
+            coverage._bedcov, coverage._rdc = _delayed_bedcov, _delayed_rdc
+            coverage.to_chunks = parallel.to_chunks if size == 5000 else functools.partial(parallel.to_chunks, chunk_size=size)
+            try:
+                cn = coverage.do_coverage(bed, bam, by_count=(algo == "count"), min_mapq=i["q"], processes=procs)
+            except Exception as e:  # noqa: BLE001
+                res.append({"err": type(e).__name__, "msg": str(e)[:200]})
+                continue
+            finally:
+                coverage._bedcov, coverage._rdc, coverage.to_chunks = saved
+            r = _rows(cn)
+            if algo == "count" and "rows" in r:  # one task per chromosome, in the order in which the table lists them
+                keys = list(dict.fromkeys(x[0] for x in r["rows"]))
+            try:
+                evs, seen = _observed_events(log, dict((key, j) for j, key in enumerate(keys)), len(keys))
+            except (KeyError, ValueError) as e:
+                evs, seen = None, 0
+                r["events_error"] = "%s: %s" % (type(e).__name__, e)
+            r["events"], r["nw"] = evs, max(procs, seen, 1)
+            res.append(r)
+        return res
+    finally:
+        _PLAN = None
+        coverage._bedcov, coverage._rdc, coverage.to_chunks = saved
+        tempfile.tempdir = old_tmp
+        shutil.rmtree(d, ignore_errors=True)
+
+
+def _judge_sched(case, impl, resp):
+    spec = list(resp.get("spec") or [])
+    dis = []
+    for k, (run, m, r) in enumerate(zip(case["in"]["runs"], resp["out"], impl)):
+        what = f"sched run {k} {run[0]} p={run[1]} chunk={run[2]} plan={run[3]}"
+        if "err" in m:
+            if "err" not in r:
+                dis.append(f"{what}: model refuses the regions file ({m['err']}), implementation returned a table")
+            continue
+        if "err" in r:
+            spec.append("raises_" + r["err"])
+            continue
+        if "nonfinite" in r:
+            spec.append("depth_and_log2_are_finite_numbers")
+            continue
+        if r.get("events") is None:
+            dis.append(f"{what}: the worker log could not be read back as a schedule ({r.get('events_error')})")
+            continue
+        if m.get("unfinished"):
+            dis.append(f"{what}: the observed worker events {r['events']} leave the model's pool unfinished")
+            continue
+        mr, ir = m["rows"], r["rows"]
+        if len(mr) != len(ir):
+            dis.append(f"{what}: {len(mr)} model rows, {len(ir)} implementation rows")
+            continue
+        for j, (a, b) in enumerate(zip(mr, ir)):
+            if a[:4] != b[:4]:
+                dis.append(f"{what} row {j}: bin model {a[:4]} impl {b[:4]}")
+                break
+            dm = Fraction(a[4])
+            if not _close(float(Fraction(b[4])), float(dm)):
+                dis.append(f"{what} row {j} {a[:3]}: depth model {a[4]} impl {float(Fraction(b[4]))}")
+                break
+            lg = float(Fraction(b[5]))
+            if a[5] is not None:
+                if Fraction(b[5]) != Fraction(a[5]):
+                    dis.append(f"{what} row {j}: log2 model {a[5]} impl {lg}")
+                    break
+            elif dm <= 0 or not _close(lg, math.log2(dm)):
+                dis.append(f"{what} row {j}: log2 impl {lg} is not log2 of model depth {a[4]}")
+                break
+    return sorted(set(spec)), dis, None
+
+
 def corpus():
     c = []
     # finding C09-W: names that pandas parses as numbers / NA lose their text in the pileup path, and differently per chunk
@@ -463,6 +661,9 @@ def gen_cases(rng, tier):
             cases.append(_with_cli(rng, {"op": "cov", "tag": "default-chunk-size", "in": inp}))
     m = {"quick": 1500, "thorough": 10000, "search": 300}[tier]
     cases += [_chunk_case(rng) for _ in range(m)]
+    # worker schedules of the real pool replayed through the small-step pool model (drawn last: the cases above
+    # stay what they were for a given seed)
+    cases += [_sched_case(rng, k) for k in range({"quick": 16, "thorough": 80, "search": 8}[tier])]
     if tier != "search":
         for nl in ({"quick": [5001], "thorough": [4999, 5000, 5001, 10000, 10001]}[tier]):
             cases.append(_chunk_case(rng, n=nl, size=5000, tag="chunks-default-size"))
@@ -631,6 +832,8 @@ def _api(coverage, bed, bam, algo, q, procs, fasta, style):
 def run_impl(case):
     from cnvlib import coverage, parallel
     i = case["in"]
+    if case["op"] == "covsched":
+        return _run_sched(case)
     d = tempfile.mkdtemp(dir="/var/tmp", prefix="c09-")
     old_tmp = tempfile.tempdir
     tempfile.tempdir = d  # to_chunks / pysam put their temporary files here, not under /tmp
@@ -700,6 +903,15 @@ def to_line(case, impl):
     i = case["in"]
     if case["op"] == "chunks":
         line = {"op": "chunks", "in": {"lines": i["lines"], "size": i["size"]}}
+    elif case["op"] == "covsched":
+        ok = isinstance(impl, list)
+        runs = [[run[0], run[1], run[2], (impl[k].get("nw") or run[1]) if ok else run[1],
+                 (impl[k].get("events") or []) if ok else []] for k, run in enumerate(i["runs"])]
+        line = {"op": "covsched", "in": {"contigs": i["contigs"], "reads": i["reads"], "q": i["q"], "runs": runs,
+                                         "bed": [None if isinstance(l, str) else l for l in i["bed"]]}}
+        if ok:
+            line["impl"] = [({"rows": r["rows"]} if "rows" in r else {}) for r in impl]
+        return line
     else:
         line = {"op": "cov", "in": {"contigs": i["contigs"], "reads": i["reads"], "q": i["q"], "runs": i["runs"],
                                     "bed": [None if isinstance(l, str) else l for l in i["bed"]]}}
@@ -717,6 +929,8 @@ def judge(case, impl, resp):
         return ["raises_" + impl["__error__"]], [], None
     if "error" in resp:
         return [], ["model error: " + resp["error"]], None
+    if case["op"] == "covsched":
+        return _judge_sched(case, impl, resp)
     spec = list(resp.get("spec") or [])
     dis = []
     if case["op"] == "chunks":
@@ -768,6 +982,8 @@ def nontrivial(case, impl, resp):
         return False
     if case["op"] == "chunks":
         return len(impl) >= 2
+    if case["op"] == "covsched":  # a pool run in which at least two tasks finished
+        return bool(resp.get("valid")) and any(sum(1 for e in (r.get("events") or []) if e[0] == 1) >= 2 for r in impl)
     return bool(resp.get("valid")) and any("rows" in r and any(Fraction(x[4]) > 0 for x in r["rows"]) for r in impl)
 
 
@@ -777,6 +993,15 @@ def shrink(case):
         ls = i["lines"]
         for k in range(len(ls)):
             yield {"op": "chunks", "tag": "shrunk", "in": {"lines": ls[:k] + ls[k + 1:], "size": i["size"]}}
+        return
+    if case["op"] == "covsched":
+        runs, reads = i["runs"], i["reads"]
+        for k in range(len(runs)):
+            if len(runs) > 1:
+                yield {"op": "covsched", "tag": "shrunk", "in": dict(i, runs=runs[:k] + runs[k + 1:])}
+        for part in (reads[: len(reads) // 2], reads[len(reads) // 2:]):
+            if len(part) < len(reads):
+                yield {"op": "covsched", "tag": "shrunk", "in": dict(i, reads=part)}
         return
 
     def mk(**kw):
